@@ -545,6 +545,7 @@ def _scenarios():
     # Multiply: factors are aligned (inserted-axes) views of lower-rank arrays; `wheres` = the axes each factor really has
     for dims, wheres, kinds in (((2, 3), ((0,), (1,)), ('sparse', 'sparse')), ((2, 3), ((1,), (0,)), ('sparse', 'dense')),
                                 ((2, 3), ((0,), (0, 1)), ('sparse', 'dense')), ((2, 3, 2), ((0, 2), (1,)), ('sparse', 'sparse')),
+                                ((2, 3, 2), ((2,), (0, 1)), ('sparse', 'dense')), ((2, 2, 3), ((1, 0), (2,)), ('dense', 'sparse')),
                                 ((2, 3), ((0,), (1,), (0,)), ('sparse', 'sparse', 'dense')), ((2, 3, 2), ((2,), (0,), (1,)), ('sparse', 'sparse', 'sparse')),
                                 ((3,), ((0,), (0,)), ('sparse', 'sparse'))):
         def b(cx, dims=dims, wheres=wheres, kinds=kinds):
